@@ -135,12 +135,13 @@ package netpoll
 
 // ---- dialing (net_dialer.go, net_sock.go, net_netfd.go, net_polldesc.go): C14 ----
 // the deadline error is created once at package initialisation and never reassigned
-//@ owned C14 : global:errIOTimeout by init
+//@ owned C14 : global:errIOTimeout global:errCanceled by init
 //@ func mapErr
 //@   property C14
-//@   assume typeis(errIOTimeout, *timeoutError) && context.Canceled != context.DeadlineExceeded
+//@   assume typeis(errIOTimeout, *timeoutError) && errCanceled != nil && context.Canceled != context.DeadlineExceeded
 //@   ensures err == context.DeadlineExceeded ==> typeis(result, *timeoutError)
 //@   ensures err != context.DeadlineExceeded && err != context.Canceled ==> result == err
+//@   ensures err != nil ==> result != nil
 
 // a dial returns a usable connection or an error, never both and never neither
 //@ func (*dialer).dialTCP
@@ -156,3 +157,89 @@ package netpoll
 //@   property C14
 //@   ensures (err == nil) == (connection != nil)
 //@   modifies world
+
+// a netFD being dialled is not yet visible to any other goroutine or callback ("c is not yet accessible to user")
+//@ ghost field netFD.dialing bool threadlocal
+//@ worldrely forall n *netFD {n.dialing} :: n.dialing ==> n.fd == old(n.fd) && n.closed == old(n.closed) && n.detaching == old(n.detaching) && n.pd == old(n.pd)
+//@   && fdopen[n.fd] == old(fdopen[n.fd]) && closecnt[n.fd] == old(closecnt[n.fd])
+//@   && (n.pd != nil ==> n.pd.operator == old(n.pd.operator) && n.pd.writeTrigger == old(n.pd.writeTrigger) && n.pd.closeTrigger == old(n.pd.closeTrigger))
+
+// the one-shot poller registration of a dial in progress
+//@ func newPollDesc
+//@   property C14
+//@   results pd
+//@   requires mbase(pollmanager) && (pollmanager.status == 2 ==> mgood(pollmanager))
+//@   note Pick panics when the pollers cannot be opened (known finding of C18); assumed not to happen here
+//@   assume pollmanager.status != 1
+//@   ensures pd != nil && fresh(pd) && pd.operator != nil && pd.operator.owned && pd.operator.poll != nil && pd.operator.detached == 0 && !pd.operator.opheld && pd.writeTrigger != nil && pd.closeTrigger != nil
+//@   ensures forall o *FDOperator :: wasalloc(o) && o != pd.operator ==> o.owned == old(o.owned)
+//@   ensures forall o *FDOperator :: wasalloc(o) && o == pd.operator ==> !old(o.owned)
+//@   modifies world, FDOperator.owned, operatorCache.ocl, runFailed, ocBase
+//@   ghost after call (*manager).Pick#1: assume result != nil
+
+// WaitWrite: when the context ends first the slot is deregistered before the (mapped) context error is returned
+//@ ghost global wwDetached bool
+//@ func (*pollDesc).WaitWrite
+//@   property C14
+//@   requires pd.operator != nil && pd.operator.poll != nil && pd.operator.detached >= 0 && pd.operator.detached < 2147483000 && ctx != nil && pd.writeTrigger != nil && pd.closeTrigger != nil
+//@   threadlocal !wwDetached
+//@   ensures forall o *FDOperator :: o.owned == old(o.owned)
+//@   ensures wwDetached ==> err != nil
+//@   ensures pd.operator.detached >= old(pd.operator.detached) && pd.operator.detached <= old(pd.operator.detached) + 1 && (err == nil ==> pd.operator.detached == old(pd.operator.detached))
+//@   modifies FDOperator.state, pd.operator.detached, wwDetached
+//@   ghost before call (*pollDesc).detach#1: wwDetached = true
+//@   ghost before call mapErr#1: assert wwDetached
+
+// connect: the slot taken for the wait is given back on every path out of the wait loop
+//@ func (*netFD).connect
+//@   property C14
+//@   requires ctx != nil && c.dialing
+//@   requires mbase(pollmanager) && (pollmanager.status == 2 ==> mgood(pollmanager))
+//@   assume pollmanager.status != 1
+//@   ensures forall o *FDOperator :: wasalloc(o) ==> o.owned == old(o.owned)
+//@   ensures c.fd == old(c.fd) && c.closed == old(c.closed) && c.detaching == old(c.detaching)
+//@   ensures fdopen[c.fd] == old(fdopen[c.fd]) && closecnt[c.fd] == old(closecnt[c.fd])
+//@   modifies world, c.pd, FDOperator.owned, operatorCache.ocl, operatorCache.ofl, runFailed, wwDetached, ocBase
+//@   loop 1 invariant c.pd != nil && c.pd.operator != nil && c.pd.operator.owned && c.pd.operator.poll != nil && c.pd.operator.detached >= 0 && c.pd.operator.detached < 2147483000 && c.pd.writeTrigger != nil && c.pd.closeTrigger != nil
+//@   loop 1 invariant forall o *FDOperator :: wasalloc(o) && o != c.pd.operator ==> o.owned == old(o.owned)
+//@   loop 1 invariant c.fd == old(c.fd) && c.closed == old(c.closed) && c.detaching == old(c.detaching) && !c.pd.operator.opheld
+//@   loop 1 invariant forall o *FDOperator :: wasalloc(o) && o == c.pd.operator ==> !old(o.owned)
+//@   loop 1 invariant fdopen[c.fd] == old(fdopen[c.fd]) && closecnt[c.fd] == old(closecnt[c.fd])
+
+//@ func (*netFD).dial
+//@   property C14
+//@   requires ctx != nil && c.dialing
+//@   requires mbase(pollmanager) && (pollmanager.status == 2 ==> mgood(pollmanager))
+//@   assume pollmanager.status != 1
+//@   ensures forall o *FDOperator :: wasalloc(o) ==> o.owned == old(o.owned)
+//@   ensures c.fd == old(c.fd) && c.closed == old(c.closed) && c.detaching == old(c.detaching)
+//@   ensures fdopen[c.fd] == old(fdopen[c.fd]) && closecnt[c.fd] == old(closecnt[c.fd])
+//@   modifies world, c.pd, FDOperator.owned, operatorCache.ocl, operatorCache.ofl, runFailed, wwDetached, ocBase
+
+// socket: a descriptor that could not be dialled is closed before the error is returned (C14, C15)
+//@ func socket
+//@   property C14 C15
+//@   requires ctx != nil
+//@   requires mbase(pollmanager) && (pollmanager.status == 2 ==> mgood(pollmanager))
+//@   assume pollmanager.status != 1
+//@   ensures (err == nil) == (netfd != nil)
+//@   ensures err == nil ==> fdopen[netfd.fd] && netfd.closed == 0
+//@   ensures forall o *FDOperator :: wasalloc(o) ==> o.owned == old(o.owned)
+//@   threadlocal !sockOpen
+//@   modifies world, fdopen, closecnt, FDOperator.owned, operatorCache.ocl, operatorCache.ofl, runFailed, wwDetached, ocBase, netFD.dialing, sockFd, sockClosed, sockOpen
+//@   ghost after call sysSocket#1: sockFd = result0; sockClosed = closecnt[result0]; sockOpen = result1 == nil
+//@   ghost after call newNetFD#1: result.dialing = true
+//@   note netFD.Close leaves descriptors 0..2 alone: a socket that was given one of those numbers is not closed (observation)
+//@   ghost at return: assert err != nil && sockOpen && sockFd > 2 ==> closecnt[sockFd] == sockClosed + 1 && !fdopen[sockFd]
+//@ ghost global sockFd int
+//@ ghost global sockClosed int
+//@ ghost global sockOpen bool
+//@ func (*TCPAddr).sockaddr
+//@   trusted pure conversion of an address into a socket address (stdlib-derived code, array slicing)
+//@   modifies nothing
+//@ func (*UnixAddr).sockaddr
+//@   trusted pure conversion of an address into a socket address
+//@   modifies nothing
+//@ func sockaddrToAddr
+//@   trusted pure conversion of a socket address into a net.Addr (slices of array fields)
+//@   modifies nothing
